@@ -196,7 +196,7 @@ def oracle(c, o):
         want = []
         for i, r in enumerate(c['rows']):
             if r[1] >= a * fs and (c['stop'] is None or r[2] <= c['stop'] * fs):
-                sh = int(fs * a) if c['reset'] else 0
+                sh = int(round(fs * a)) if c['reset'] else 0
                 want.append({'s': [v - sh for v in r], 'id': i})
         if o['rows'] != want:
             return 'selection/shift differs: got %s want %s' % (o['rows'][:4], want[:4])
